@@ -67,6 +67,17 @@ func c05Case(unit string, T uint16, phase int64, interf string) (string, *TimedC
 		tc.Steps = append(tc.Steps, TStep{At: tb + Tn/2, Client: 2, Cmd: hapi.Cmd{Type: 2, Req: 3, Key: 1, Id: 2, Flag: 0x02}})
 		tc.Expect = []Expect{{Req: 2, Kind: "cancelled"}}
 		tc.ZeroWait = true
+	case "cancel-early":
+		// cancelled 50 ms after it was queued (for millisecond waits: before any hand-over between wheels)
+		tc.Steps = append(tc.Steps, TStep{At: tb + 50*ms, Client: 2, Cmd: hapi.Cmd{Type: 2, Req: 3, Key: 1, Id: 2, Flag: 0x02}})
+		tc.Expect = []Expect{{Req: 2, Kind: "cancelled"}}
+		tc.ZeroWait = true
+		tc.Horizon = tb + Tn + 6*sec
+	case "grant-early":
+		tc.Steps[1].Cmd.Expried, tc.Steps[1].Cmd.ExpriedFlag = 0xffff, fUnlim // the granted hold is never ended by time
+		tc.Steps = append(tc.Steps, TStep{At: tb + 50*ms, Client: 0, Cmd: U(3, 1, 1)})
+		tc.Expect = []Expect{{Req: 2, Kind: "granted", Lo: 0, Hi: Tn}, {Req: 2, Kind: "never-expires"}}
+		tc.Horizon = tb + Tn + 6*sec
 	case "second-waiter-same-tick":
 		w2 := w
 		w2.Req, w2.Id = 4, 3
@@ -77,6 +88,18 @@ func c05Case(unit string, T uint16, phase int64, interf string) (string, *TimedC
 		tc.Steps = append(tc.Steps, TStep{At: tb + 300*ms, Client: 0, Cmd: hapi.Cmd{Type: 1, Req: 3, Key: 1, Id: 1, Flag: 0x02, Expried: 0xffff, ExpriedFlag: fUnlim, Count: 1}})
 		tc.Expect = []Expect{to}
 		tc.ZeroWait = true
+	case "three-same-deadline-first-granted":
+		// three waiters on one deadline second; shortly before it the holder unlocks, so the oldest is granted:
+		// the two others must still be answered TIMEOUT on time
+		tc.Clients = 3
+		for i := 0; i < 3; i++ {
+			wi := w
+			wi.Req, wi.Id = byte(10+i), byte(10+i)
+			tc.Steps = append(tc.Steps, TStep{At: tb + int64(i)*ms, Client: 2, Cmd: wi})
+		}
+		tc.Steps = append(tc.Steps, TStep{At: tb + Tn - 4*sec, Client: 0, Cmd: U(3, 1, 1)})
+		tc.Expect = []Expect{{Req: 2, Kind: "granted", Lo: 0, Hi: Tn}, {Req: 10, Kind: "timeout", Lo: Tn, Hi: hi}, {Req: 11, Kind: "timeout", Lo: Tn, Hi: hi}, {Req: 12, Kind: "timeout", Lo: Tn, Hi: hi}}
+		tc.Horizon = tb + Tn + 9*sec
 	case "many-same-deadline":
 		tc.Clients = 3
 		for i := 0; i < 200; i++ {
@@ -85,9 +108,14 @@ func c05Case(unit string, T uint16, phase int64, interf string) (string, *TimedC
 			tc.Steps = append(tc.Steps, TStep{At: tb + int64(i)*10000, Client: 2, Cmd: wi})
 			tc.Expect = append(tc.Expect, Expect{Req: wi.Req, Kind: "timeout", Lo: Tn, Hi: hi})
 		}
-		// half of them are cancelled in the middle, which restructures the long-wait table
+		// half of them are cancelled in the middle (for waits of a minute or more: 5 s before the deadline, when
+		// they have left the wheel for the long-wait table), which leaves holes in the table
+		cancelAt := tb + Tn/2
+		if Tn >= 60*sec {
+			cancelAt = tb + Tn - 5*sec
+		}
 		for i := 0; i < 200; i += 2 {
-			tc.Steps = append(tc.Steps, TStep{At: tb + Tn/2 + int64(i)*10000, Client: 0, Cmd: hapi.Cmd{Type: 2, Req: byte(10 + i), Key: 1, Id: byte(10 + i), Flag: 0x02}})
+			tc.Steps = append(tc.Steps, TStep{At: cancelAt + int64(i)*10000, Client: 0, Cmd: hapi.Cmd{Type: 2, Req: byte(10 + i), Key: 1, Id: byte(10 + i), Flag: 0x02}})
 		}
 		// cancelled ones answer UNLOCK_ERROR under their own RequestId; the canceller reuses the id (ignored)
 		var ex []Expect
@@ -131,7 +159,7 @@ func c05Cases(quick bool) []EnumCase {
 			}
 		}
 	}
-	inter := []string{"grant-before-deadline", "cancel", "second-waiter-same-tick", "holder-update"}
+	inter := []string{"grant-before-deadline", "cancel", "second-waiter-same-tick", "holder-update", "cancel-early", "grant-early"}
 	for _, T := range []uint16{1, 2, 3, 8, 9, 10, 11, 20} {
 		for _, ph := range phases {
 			for _, in := range inter {
@@ -139,8 +167,13 @@ func c05Cases(quick bool) []EnumCase {
 			}
 		}
 	}
-	for _, T := range []uint16{3, 12, 30} {
+	for _, T := range []uint16{3, 12, 30, 60, 90} {
 		add("s", T, 500*ms, "many-same-deadline")
+	}
+	for _, T := range []uint16{6, 20, 50, 60, 75} {
+		for _, ph := range phases {
+			add("s", T, ph, "three-same-deadline-first-granted")
+		}
 	}
 	mins := []uint16{1, 2, 3}
 	if !quick {
@@ -160,6 +193,8 @@ func c05Cases(quick bool) []EnumCase {
 			if T >= 999 {
 				add("ms", T, ph, "cancel")
 				add("ms", T, ph, "grant-before-deadline")
+				add("ms", T, ph, "cancel-early")
+				add("ms", T, ph, "grant-early")
 			}
 		}
 	}
@@ -236,14 +271,35 @@ func c06Case(unit string, E uint16, phase int64, interf string) (string, *TimedC
 		tc.Steps[0].Cmd.ExpriedFlag |= fUnlim
 		tc.Expect = []Expect{{Req: 1, Kind: "never-expires"}}
 		tc.Horizon = tb + En + 30*sec
-	case "many-same-deadline":
+	case "three-same-deadline-first-unlocked", "three-same-deadline-first-unlocked-long-table":
+		// three holds on one deadline second; the oldest is unlocked shortly before it: the two others must
+		// still be ended on time (with the persist-immediately flag they sit in the long table from the start)
 		tc.Steps = nil
+		for i := 0; i < 3; i++ {
+			hi2 := h
+			hi2.Req, hi2.Id, hi2.Count = byte(10+i), byte(10+i), 0xffff
+			if interf == "three-same-deadline-first-unlocked-long-table" {
+				hi2.ExpriedFlag |= efZeroAof
+			}
+			tc.Steps = append(tc.Steps, TStep{At: tb + int64(i)*ms, Client: 0, Cmd: hi2})
+		}
+		tc.Steps = append(tc.Steps, TStep{At: tb + En - 4*sec, Client: 0, Cmd: U(3, 1, 10)})
+		tc.Expect = []Expect{{Req: 10, Kind: "never-expires"}, {Req: 11, Kind: "expried", Lo: En, Hi: hi}, {Req: 12, Kind: "expried", Lo: En, Hi: hi}}
+	case "many-same-deadline", "many-same-deadline-long-table":
+		tc.Steps = nil
+		unlockAt := tb + En/2
+		if En >= 60*sec {
+			unlockAt = tb + En - 5*sec
+		}
 		for i := 0; i < 200; i++ {
 			hi2 := h
 			hi2.Req, hi2.Id, hi2.Count = byte(10+i), byte(10+i), 0xffff
+			if interf == "many-same-deadline-long-table" {
+				hi2.ExpriedFlag |= efZeroAof
+			}
 			tc.Steps = append(tc.Steps, TStep{At: tb + int64(i)*10000, Client: 0, Cmd: hi2})
 			if i%2 == 0 {
-				tc.Steps = append(tc.Steps, TStep{At: tb + En/2 + int64(i)*10000, Client: 0, Cmd: U(byte(10+i), 1, byte(10+i))})
+				tc.Steps = append(tc.Steps, TStep{At: unlockAt + int64(i)*10000, Client: 0, Cmd: U(byte(10+i), 1, byte(10+i))})
 				tc.Expect = append(tc.Expect, Expect{Req: hi2.Req, Kind: "never-expires"})
 			} else {
 				tc.Expect = append(tc.Expect, Expect{Req: hi2.Req, Kind: "expried", Lo: En, Hi: hi})
@@ -288,8 +344,17 @@ func c06Cases(quick bool) []EnumCase {
 			}
 		}
 	}
-	for _, E := range []uint16{3, 12, 30} {
+	for _, E := range []uint16{3, 12, 30, 60, 90} {
 		add("s", E, 500*ms, "many-same-deadline")
+		if E > 5 {
+			add("s", E, 500*ms, "many-same-deadline-long-table")
+		}
+	}
+	for _, E := range []uint16{6, 20, 50, 60, 75} {
+		for _, ph := range phases {
+			add("s", E, ph, "three-same-deadline-first-unlocked")
+			add("s", E, ph, "three-same-deadline-first-unlocked-long-table")
+		}
 	}
 	mins := []uint16{1, 2}
 	if !quick {
